@@ -11,6 +11,7 @@ import Driver.InvokeEng
 import Driver.CastsEng
 import Driver.TypingEng
 import Driver.StructEng
+import Driver.SnapEng
 /-! `rlbox_model_driver`: one operation per line on stdin, one result per line on stdout. -/
 open Driver
 
@@ -23,7 +24,7 @@ def firstSome (fs : List (List String → Option String)) (t : List String) : Op
 
 def stepLine (s : St) (line : String) : St × String :=
   let t := toks line
-  match firstSome [Conv.step, PtrEng.step, RangeEng.step, IndexEng.step, MemEng.step, OpsEng.step, CallsEng.step, InvokeEng.step, CastsEng.step, TypingEng.step, StructEng.step] t with
+  match firstSome [Conv.step, PtrEng.step, RangeEng.step, IndexEng.step, MemEng.step, OpsEng.step, CallsEng.step, InvokeEng.step, CastsEng.step, TypingEng.step, StructEng.step, SnapEng.step] t with
   | some r => (s, r)
   | none =>
   match TokEng.step s.tok t with
